@@ -195,7 +195,7 @@ def get_batches(tier, seed):
 
 def load_batch(d):
     b = {'dir': d, 'status': json.load(open(f'{d}/status.json'))}
-    for name in ('case', 'meta', 'plugin', 'static'):
+    for name in ('case', 'meta', 'plugin', 'static', 'oracle'):
         p = f'{d}/{name}.json'
         b[name] = json.load(open(p)) if os.path.exists(p) else None
     for name in ('ops', 'impl', 'model', 'checkres', 'emit'):
